@@ -2,6 +2,7 @@ package harness
 
 import (
 	"bufio"
+	"regexp"
 	"bytes"
 	"context"
 	"errors"
@@ -31,6 +32,8 @@ type Event struct {
 	Arg   string // rendering of the interesting argument(s)
 	State string // ReadyState of the session when the event fired
 	Pkts  []Pkt  // flush: packets handed over; packet/packetCreate: the packet
+	Seq    int    // index in World.Events
+	Thread string // path of the scheduled thread that emitted it
 }
 
 func (e Event) String() string {
@@ -62,6 +65,10 @@ type World struct {
 	ByID     map[string]*SockRec
 	ConnErrs []string // code:message of connection_error events
 	Resps    []*Resp
+	actions      map[string]int // thread path of a harness-initiated action -> len(Events) when it began
+	EpilogueFrom int            // len(Events) when the sequential epilogue started
+	LateReqs     []*Resp        // requests issued after the session closed
+	PostMsgs     map[*Resp][]string
 	// OnConnection lets a scenario attach behaviour to new sessions (runs in the engine's thread).
 	OnConnection func(s *SockRec)
 	// OnMessage, if set, is called for each message event (engine thread).
@@ -94,7 +101,7 @@ var pktTypeByte = map[string]byte{"open": '0', "close": '1', "ping": '2', "pong"
 
 // NewWorld builds a server with the given options inside execution x.
 func NewWorld(x *vsched.Exec, opts config.ServerOptionsInterface) *World {
-	w := &World{X: x, ByID: map[string]*SockRec{}}
+	w := &World{X: x, ByID: map[string]*SockRec{}, actions: map[string]int{}, PostMsgs: map[*Resp][]string{}, EpilogueFrom: 1 << 30}
 	w.Srv = engine.NewServer(opts)
 	w.Handler = w.Srv
 	w.hook()
@@ -126,7 +133,10 @@ func (w *World) hook() {
 }
 
 func (w *World) record(rec *SockRec, name, arg string, pkts ...Pkt) {
-	e := Event{At: w.X.Now(), Sid: rec.Id, Name: name, Arg: arg, State: rec.Sock.ReadyState(), Pkts: pkts}
+	e := Event{At: w.X.Now(), Sid: rec.Id, Name: name, Arg: arg, State: rec.Sock.ReadyState(), Pkts: pkts, Seq: len(w.Events)}
+	if t := vsched.Self(); t != nil {
+		e.Thread = t.Path
+	}
 	rec.Events = append(rec.Events, e)
 	w.Events = append(w.Events, e)
 	if w.OnEvent != nil {
@@ -160,6 +170,28 @@ func (w *World) sockEvent(rec *SockRec, name string, a []any) {
 	default:
 		w.record(rec, name, "")
 	}
+}
+
+// BeginAction marks the calling thread as the root of a harness-initiated action.
+func (w *World) BeginAction() {
+	if t := vsched.Self(); t != nil {
+		w.actions[t.Path] = len(w.Events)
+	}
+}
+
+// actionOf returns when the action that thread path belongs to began.
+func (w *World) actionOf(path string) (int, bool) {
+	for p := path; p != ""; {
+		if v, ok := w.actions[p]; ok {
+			return v, true
+		}
+		i := strings.LastIndexByte(p, '.')
+		if i < 0 {
+			break
+		}
+		p = p[:i]
+	}
+	return 0, false
 }
 
 // CloseReason returns the reasons of all close events of the session.
@@ -214,15 +246,22 @@ type Resp struct {
 	done        <-chan struct{}
 	hdr         http.Header
 	wrote       bool
+	WroteSeq    int // len(World.Events) when the response was written
+	WroteAt     time.Duration
+	aborted     bool
+	w           *World
 }
 
 type rw struct{ r *Resp }
 
 func (w rw) Header() http.Header { return w.r.hdr }
 func (w rw) WriteHeader(code int) {
+	vsched.WaitFor(uintptr(unsafe.Pointer(w.r)), "respond", nil)
 	w.r.HeaderCalls++
 	if !w.r.wrote {
 		w.r.wrote = true
+		w.r.WroteSeq = len(w.r.w.Events)
+		w.r.WroteAt = w.r.w.X.Now()
 		w.r.Code = code
 		w.r.Hdr = w.r.hdr.Clone()
 	}
@@ -256,10 +295,19 @@ type countingBody struct {
 	Endless bool
 	Closed  bool
 	Cap     int64 // endless: hard stop (reported as an oracle failure by the caller)
+	// SlowUntil: the first Read blocks until this virtual instant (an upload in progress)
+	SlowUntil time.Duration
+	Started   bool // the server began reading the body
 }
 
 func (b *countingBody) Read(p []byte) (int, error) {
 	vsched.Tick()
+	if !b.Started {
+		b.Started = true
+		if b.SlowUntil > 0 {
+			vsched.SleepUntil(b.SlowUntil)
+		}
+	}
 	if b.Endless {
 		if b.Cap > 0 && b.Read_ >= b.Cap {
 			return 0, io.EOF
@@ -285,6 +333,7 @@ type ReqOpt struct {
 	Hdr           map[string]string
 	Body          []byte
 	UnknownLength bool // ContentLength = -1
+	SlowUntil     time.Duration
 	EndlessBody   bool
 	Hijackable    bool
 }
@@ -292,10 +341,10 @@ type ReqOpt struct {
 // Request starts a handler thread for the request and returns its recorder; it
 // does not run the scheduler.
 func (w *World) Request(method, target string, o ReqOpt) *Resp {
-	r := &Resp{Desc: method + " " + target, hdr: http.Header{}}
+	r := &Resp{Desc: method + " " + sidMask.ReplaceAllString(target, "sid=*"), hdr: http.Header{}, w: w}
 	var body io.Reader
 	if o.Body != nil || o.EndlessBody {
-		r.BodyRead = &countingBody{data: o.Body, Endless: o.EndlessBody, Cap: 64 << 20}
+		r.BodyRead = &countingBody{data: o.Body, Endless: o.EndlessBody, Cap: 64 << 20, SlowUntil: o.SlowUntil}
 		body = r.BodyRead
 	}
 	req := httptest.NewRequest(method, target, body)
@@ -326,17 +375,25 @@ func (w *World) Request(method, target string, o ReqOpt) *Resp {
 			if p := recover(); p != nil {
 				r.Panic = p
 			}
+			vsched.WaitFor(uintptr(unsafe.Pointer(r)), "handler-return", nil)
 			r.Returned = true
 			r.ReturnedAt = w.X.Now()
 			r.cancel() // net/http cancels the request context when the handler returns
 		}()
+		w.BeginAction()
 		h.ServeHTTP(writer, req)
 	})
 	return r
 }
 
+var sidMask = regexp.MustCompile(`sid=[A-Za-z0-9_-]+`)
+
 // Abort simulates the peer going away while the request is outstanding.
-func (r *Resp) Abort() { r.cancel() }
+func (r *Resp) Abort() {
+	vsched.WaitFor(uintptr(unsafe.Pointer(r)), "abort", nil)
+	r.aborted = true
+	r.cancel()
+}
 
 // Wait parks the calling thread until the response has been written.
 func (r *Resp) Wait() {
@@ -395,7 +452,7 @@ func (c *srvConn) Read(b []byte) (int, error) {
 
 func (c *srvConn) Write(b []byte) (int, error) {
 	p := c.p
-	vsched.WaitFor(uintptr(unsafe.Pointer(p))+1, "conn-write", nil)
+	vsched.WaitFor(uintptr(unsafe.Pointer(p)), "conn-write", nil)
 	if p.srvClosed {
 		p.WriteErrors++
 		return 0, &net.OpError{Op: "write", Net: "tcp", Err: net.ErrClosed}
@@ -427,13 +484,13 @@ func (c *srvConn) SetWriteDeadline(t time.Time) error { return nil }
 
 // ClientWrite appends bytes the client sends (a scheduling point when called from a thread).
 func (p *Pipe) ClientWrite(b []byte) {
-	vsched.WaitFor(uintptr(unsafe.Pointer(p))+2, "client-write", nil)
+	vsched.WaitFor(uintptr(unsafe.Pointer(p)), "client-write", nil)
 	p.toSrv = append(p.toSrv, b...)
 }
 
 // ClientClose is an abrupt disconnect of the peer.
 func (p *Pipe) ClientClose() {
-	vsched.WaitFor(uintptr(unsafe.Pointer(p))+2, "client-close", nil)
+	vsched.WaitFor(uintptr(unsafe.Pointer(p)), "client-close", nil)
 	p.cliClosed = true
 }
 
